@@ -307,6 +307,51 @@ example :
     (∃ k fk v as rst, s.stack = Frame.fn k fk (Act.panic v :: as) :: rst) ∧ s.status = none :=
   ⟨⟨2, .sub, 2, [], [.fn 2 .plain [], .loop, .fn 1 .plain [], .loop, .fn 0 .recover [], .loop], rfl⟩, by decide⟩
 
+
+/-! ### later requests are served normally, also on reused pooled contexts -/
+
+theorem lemma_serveOn_reset (cfg : Cfg) (progs : List Prog) (c : PCtx) (h : c.aborted = false) :
+    serveOn cfg progs c = exec cfg progs := by
+  unfold serveOn exec start
+  rw [h]
+  rfl
+
+/-- **Later requests are unaffected.** Whatever the earlier requests did — recovered panics (which
+    leave `aborted = true` behind until `reset()`), escaped panics, aborts — and whichever serve
+    path released their contexts, every request of the sequence behaves exactly like a request on
+    a brand-new context: the pool only ever holds reset contexts. -/
+theorem later_requests_unaffected (cfg : Cfg) (pool : List PCtx) (hp : ∀ c ∈ pool, c.aborted = false)
+    (reqs : List (List Prog × Bool)) :
+    serveAll cfg pool reqs = reqs.map fun (p, _) => exec cfg p := by
+  induction reqs generalizing pool with
+  | nil => rfl
+  | cons q qs ih =>
+    obtain ⟨p, d⟩ := q
+    have hc : (pool.headD PCtx.reset).aborted = false := by
+      cases pool with
+      | nil => rfl
+      | cons c r => exact hp c (List.mem_cons_self ..)
+    have htail : ∀ c ∈ pool.tail, c.aborted = false := fun c hc' => hp c (List.mem_of_mem_tail hc')
+    simp only [serveAll, List.map_cons, lemma_serveOn_reset cfg p _ hc]
+    congr 1
+    apply ih
+    intro c hc'
+    unfold release at hc'
+    split at hc'
+    · exact htail c hc'
+    · rcases List.mem_cons.mp hc' with h | h
+      · rw [h]; rfl
+      · exact htail c h
+
+/-- non-vacuity: a recovered panic leaves the context aborted, and the next request on the same
+    pool still runs its whole chain -/
+example :
+    let bad : List Prog := [recoveryMw, { acts := [.panic 0] }, { acts := [.write] }]
+    let good : List Prog := [recoveryMw, { acts := [.next] }, { acts := [.write] }]
+    (exec {} bad).aborted = true ∧
+    ((serveAll {} [] [(bad, false), (good, true), (good, false)]).map (·.body)) = [[.rec500], [.h 2], [.h 2]] := by
+  decide
+
 end Recovery
 
 /-! ## Part 2 — the timeout middleware, over all schedules -/
